@@ -13,24 +13,24 @@ CHECKS = {
     text="Feeds seeded token strings and random byte strings to tcell's real collectEventsFromInput for every database entry, in one read and under all (n<=10) or many partitions with no expiry in between, and requires identical event lists, zero leftover after expiry and no panic; state-free token strings must decode to the concatenation of their tokens; a sample goes through the real inputLoop/mainLoop/PollEvent path, and a sequence split across two reads is fed while the main loop is held up past the escape timer by a redraw on a slow tty.",
     note="Assumes expire=false on every chunk models 'no timeout in between'; the 50 ms timer is exercised by the stalled-main-loop rounds (timing-compromised rounds discarded) and by C06. Sampled, not exhaustive, over strings."),
  "C03": dict(level="exploration", design="3/C03", technique="exhaustive enumeration of the key tables of all database entries through the real parser, against acceptance sets derived independently from the entry's field names and an independent xterm modifier encoder",
-    text="Every Key* field of every entry, every control byte, DEL, lone ESC, the Alt prefix, every xterm modifier parameter 2..16 on cursor/editing/function keys, prefix-freedom of descriptions and built tables, ordered pairs (sampled in quick, all in thorough) and sampled triples.",
+    text="Every Key* field of every entry, every control byte, DEL, lone ESC, the Alt prefix, every xterm modifier parameter 2..16 on cursor/editing/function keys, prefix-freedom of descriptions and built tables, ordered pairs (sampled in quick, all in thorough) and sampled triples; the Alt prefix with ESC and key in two reads; every sequence under all 8 combinations of application modes (mouse/paste/focus, set through the SetModes hook); key runs through the real reader and main loop with a poller that starts late.",
     note="Trusted: the mapping field name -> (key, modifiers) and the xterm modifier encoding written in the harness; triples are sampled."),
  "C08": dict(level="exploration", design="3/C08", technique="lock-step reference-model monitor of the public CellBuffer API with a three-valued dirty oracle",
     text="Seeded histories of SetContent/Fill/Resize/Invalidate/SetDirty/LockCell/UnlockCell on a real CellBuffer; after every operation every cell and the out-of-range ring are compared with a reference array (content exactly, Dirty must-true/must-false/unconstrained).",
     note="Width from go-runewidth (non East Asian); Dirty after Resize demanded only when dimensions change; histories are sampled."),
  "C15": dict(level="exploration", design="3/C15", technique="differential monitor: independent padding grammar, per-family cursor-address decoders and the reference SGR interpreter; exhaustive over short strings and over the 0..300 grids",
-    text="TPuts output vs an independent $<...> grammar for every string up to length 6 (quick) / 7 (thorough) over an 11-symbol alphabet plus random longer ones; TGoto for every entry x 301x301 positions decoded by the entry's addressing family; TColor for every entry x (-1..300)^2 interpreted by the reference SGR interpreter; two sound timing directions.",
+    text="TPuts output vs an independent $<...> grammar for every string up to length 6 (quick) / 7 (thorough) over an 11-symbol alphabet plus random longer ones; TGoto for every entry x 301x301 positions decoded by the entry's addressing family; TColor for every entry x (-1..300)^2 interpreted by the reference SGR interpreter; the same strings from LookupTerminfo after all derived -256color/-truecolor names were looked up and under the direct-colour environment switches; sound timing directions (never shorter than specified with a pad character, also with several fractional/flagged specifications in one string; never a sleep without one, for every spelling of the specification).",
     note="Cursor-addressing family is assigned by the harness from the entry name; timing checks only use directions a loaded machine cannot falsify."),
  "C16": dict(level="exploration", design="3/C16", technique="exhaustive comparison with independent references (xterm palette formula, CSS keyword table, own sRGB->CIELAB CIE76)",
-    text="All 256 palette indices, all CSS3 keywords (both directions), all 2^24 RGB values through every conversion, invalid/special colours; FindColor against the 8/16/88/256 palettes on a lattice + random (quick) or all 2^24 (thorough) and random palettes including equal-size runs.",
+    text="All 256 palette indices, all CSS3 keywords (both directions), all 2^24 RGB values through every conversion, invalid/special colours; FromImageColor over every colour model of image/color (16-bit, translucent, grey, CMYK, YCbCr); FindColor with RGB and palette-indexed queries against the 8/16/88/256 palettes on a lattice + random (quick) or all 2^24 (thorough) and random and non-identity palettes (monochrome, reversed, rotated, RGB-only) including equal-size runs.",
     note="CIELAB from sRGB primaries and D65 at full precision; ties within 1e-9 accepted."),
  "C20": dict(level="exploration", design="3/C20", technique="reference-model monitor with recording parent View and recording child widgets; exact rational share oracle",
-    text="Seeded ViewPort geometries/op sequences checked call by call at the recording parent (mapping, clipping, offset limits in inside-before => inside-after form) and seeded BoxLayouts (<= 8 children, nested) checked from the ViewPorts handed to children and from what a full Draw paints on the root: order, disjointness, containment, preferred extent, exact surplus shares.",
+    text="Seeded ViewPort geometries/op sequences checked call by call at the recording parent (mapping, clipping, offset limits in inside-before => inside-after form) and seeded BoxLayouts (<= 8 children, nested) checked from the ViewPorts handed to children and from what a full Draw paints on the root: order, disjointness, containment, preferred extent, exact surplus shares; half of the nested layouts carry a second (application) watcher that claims every event.",
     note="The rectangle of a ViewPort is what GetPhysical/Size report; nested layouts are not re-oriented after creation (the statement does not say when a child's changed preferred size must be picked up)."),
  "C01": dict(level="exploration", design="3/C01", technique="lock-step differential monitor: real terminfo screen over an instrumented fake tty, every output byte interpreted by a reference terminal emulator, compared with a shadow model after every Show/Sync/resize",
-    text="Seeded draw histories (incl. external corruption + Sync, silent and callback resizes, locks, cursor ops) on all 45 ECMA-48-family entries x {as registered, 24-bit strings added} plus a TCELL_TRUECOLOR=disable pass; after each redraw the full emulator grid (rune, combining, width, colours with nearest-palette sets, attributes, underline style/colour, hyperlink) and cursor are compared with the model.",
+    text="Seeded draw histories (incl. external corruption + Sync, silent and callback resizes, locks incl. negative origins, identical re-stores and re-stores with one combining mark exchanged, cursor ops far outside the screen) on all 45 ECMA-48-family entries x {as registered, 24-bit strings added} plus a TCELL_TRUECOLOR=disable pass; after each redraw the full emulator grid (rune, combining, width, colours with nearest-palette sets, attributes, underline style/colour, hyperlink) and cursor are compared with the model.",
     note="Assumes A1-A4 (deferred wrap, agreed widths, sun FF, no padding delays); the emulator and colour references are the harness's own; histories are sampled."),
- "C04": dict(level="exploration", design="3/C04", technique="register monitor on the reference terminal at Fini/Suspend/Resume boundaries plus an online call-order automaton in the fake Tty, with a resize-during-Drain fault",
+ "C04": dict(level="exploration", design="3/C04", technique="register monitor on the reference terminal at Fini/Suspend/Resume boundaries plus an online call-order automaton in the fake Tty, with faults: resize during Drain, failing first Read, modes enabled from another goroutine in the unlocked window of a shutdown",
     text="Seeded mode/drawing histories with Suspend/Resume cycles ending in Fini or Suspend, on 45 entries x TCELL_ALTSCREEN {unset, disable} x both Drain personalities; at every shutdown return the emulator's registers are compared with the reset vector, after Resume with the application's enabled modes; every Tty call is checked against the contract automaton.",
     note="Only capabilities an entry has are demanded; hyperlink register excluded from the reset vector; between Suspend and Resume only mode requests are issued (drawing then is C06's)."),
  "C09": dict(level="exploration", design="3/C09", technique="strict ECMA-48 tokenizer + residue rule over every byte of draw histories (UTF-8 and an 8-bit locale) and a twin-screen injection sweep over code points",
@@ -40,20 +40,20 @@ CHECKS = {
     text="Every Unicode scalar in UTF-8 and every round-tripping code point of 22 stateless legacy charsets, whole and split at every byte boundary; seeded strings under cuts; paste brackets and focus reports on all entries; text through the real inputLoop/mainLoop with a stalled poller, trickling byte by byte (15 ms apart), and on real screens under each locale spelling (C.UTF-8, POSIX.UTF-8, modifiers).",
     note="x/text codecs define the charsets; ISO-2022-JP and HZ excluded by the statement."),
  "C12": dict(level="exploration", design="3/C12", technique="independent xterm mouse-protocol decoder vs the real parser; exhaustive code/coordinate sweeps, stateful sweeps and seeded histories",
-    text="SGR codes 0..255 x finals x boundary coordinates on fresh state and after a press (with a following motion report); legacy X11 reports over all button bytes and a coordinate grid (thorough: all 224^2); 8-bit CSI in 8-bit and UTF-8 locales; seeded press/motion/wheel/release histories against a held-button model.",
+    text="SGR codes 0..255 x finals x boundary coordinates on fresh state and after a press (with a following motion report); after a wheel impulse from idle, with a lone ESC in front, two reports or a report and text in one read (every introducer style); legacy X11 reports over all button bytes and a coordinate grid incl. bytes below 32 (thorough: all 256^2); 8-bit CSI in 8-bit and UTF-8 locales; decoding under all application-mode combinations; seeded press/motion/wheel/release histories against a held-button model; live drags on a real screen with an API call (mode changes, Suspend/Resume, Sync) between press and motion.",
     note="Button identity compared for codes 0..127 except wheel left/right; three-valued after reports the protocol never generates."),
  "C13": dict(level="exploration", design="3/C13", technique="write-stamp monitor on the reference terminal: which cells each Show() wrote, against the set the shadow model allows",
     text="Same histories as C01 (incl. identical re-stores via SetContent/SetCell); per Show the cells that received text must lie in the allowed set (changed since previous Show, wide-rune neighbours, unlocked cells, the bottom-right helper cells); locked cells never written; unlocked cells repainted; idle Show writes nothing.",
     note="'Changed' means set to something different at any time since the previous Show; assumptions of C01."),
  "C14": dict(level="exploration", design="3/C14", technique="exhaustive registry enumeration through the verif hook with strict reference interpreter, reference SGR interpreter and all ordered lookup pairs against a pristine snapshot",
-    text="Every name/alias resolves with cursor addressing; every parameterized field passes strict evaluation with the parameters the library passes; colour count vs strings (every index interpreted); key prefix freedom; static strings tokenize; -256color/-truecolor synthesis vs base + standard strings; unknown names; COLORTERM/TCELL_TRUECOLOR matrix incl. screen-level effect; every ordered pair of lookups over ~300 names compared with a fresh lookup.",
+    text="Every name/alias resolves with cursor addressing; every parameterized field passes strict evaluation with the parameters the library passes; colour count vs strings (every index interpreted); key prefix freedom; static strings tokenize; -256color/-truecolor synthesis vs base + standard strings; unknown names incl. known names and suffixes with junk attached; COLORTERM/TCELL_TRUECOLOR matrix incl. screen-level effect; every ordered pair of lookups over ~300 names compared with a fresh lookup.",
     note="-256color synthesis only demanded for bases with a -color/-88color entry; other environments use a third of the universe as first lookups."),
  "C17": dict(level="exploration", design="3/C17", technique="reference terminal with the harness's own legacy-charset decoders and acsc map, checking the display chain rune -> ACS glyph -> registered fallback -> '?' cell by cell, plus CanDisplay agreement",
-    text="Real terminfo screens under LC_ALL for each of 22 stateless legacy charsets + US-ASCII + UTF-8 on entries with and without an ACS map; every swept rune (quick: glyph/fallback tables, Latin, box drawing, a stride of the BMP; thorough: whole BMP) as narrow, wide and base+combining content; fallback registration histories incl. a second-screen probe.",
+    text="Real terminfo screens under LC_ALL for each of 22 stateless legacy charsets + US-ASCII + UTF-8 on entries with and without an ACS map; every swept rune (quick: glyph/fallback tables, Latin, box drawing, a stride of the BMP; thorough: whole BMP) as narrow, wide and base+combining content; fallback registration histories (incl. runes with an ACS glyph, an Unregister as the first change, a second-screen probe); the locale expressed in the four POSIX ways (empty LC_ALL + LC_CTYPE, LANG only, LC_CTYPE over LANG); half of the locale groups with TCELL_ALTSCREEN=disable; a caller-supplied description with acsc but no smacs; every other batch drawn over other content; the whole check again in a child process under RUNEWIDTH_EASTASIAN=1.",
     note="x/text codecs define the charsets; the glyph-name table maps acsc names to tcell's exported Rune* constants; registered fallbacks at most as wide as the cell."),
  "C18": dict(level="exploration", design="3/C18", technique="lock-step shadow-model monitor on SimulationScreen (GetContents/GetCursor) and sentinel-delimited FIFO checks of injected events",
-    text="Seeded draw histories in UTF-8 and 9 legacy charsets with full-grid comparison of Runes/Style/Bytes after every Show/Sync, SetSize overlap + resize event, cursor query; InjectKey/InjectMouse batches and InjectKeyBytes of every character of each charset and of seeded strings ending in a multi-byte character, all delimited by a sentinel key so that no verdict depends on time.",
-    note="Column covered by a wide rune is don't-care; queue bounded by design so batches <= 10 with a concurrent poller."),
+    text="Seeded draw histories in UTF-8 and 9 legacy charsets with full-grid comparison of Runes/Style/Bytes after every Show/Sync, SetSize overlap + resize event, cursor query; fallback registration histories (register / re-register / unregister, each followed by a restyle, a Sync or a rewrite); InjectKey/InjectMouse batches of 1-60 events (mouse positions inside, on and beyond the edges) and InjectKeyBytes of every character of each charset and of seeded strings up to 50 characters ending in a multi-byte character, all delimited by a sentinel key so that no verdict depends on time.",
+    note="Column covered by a wide rune is don't-care; queue bounded by design: the injector is held back while the concurrent poller drains."),
  "C19": dict(level="exploration", design="3/C19", technique="js/wasm build of a monitor program run under Node with recording JavaScript stubs: shadow-model comparison of drawCell calls, callback table sweep, exhaustive lifecycle sequences with step-counted deadlock detection",
     text="Compiles cmd/wasmchk for js/wasm against /repo (a compile error in tcell is the violation), then under Node: all 780 sequences over Suspend/Resume/SetSize(new)/SetSize(current)/Fini up to length 4 with a Size() probe after each call (blocked = not finished after 2000 yields on the single thread); every WebKeyNames name x 16 modifier sets, mouse handlers x which x modifiers x all ordered pairs of 9 flag settings, paste/focus; seeded draw histories compared cell by cell and per-Show drawCell target sets (thorough: 3000 histories over 16 Node processes).",
     note="The real DOM code of tcell.js is not executed; mouse expectations restricted to unambiguous cases."),
